@@ -329,6 +329,22 @@ def run(ctx, anchors=None):
                     p = f.parent(p)
                 if p is not None and p.get("k") in ("if", "return", "bin", "cond"):
                     used = True
+                # held in a local that a condition reads (`const bool ok = s.HasValidOps(); if (!ok || ...)`)
+                held = None
+                for dn in f.nodes():
+                    if dn["k"] == "decl":
+                        for d in dn["decls"]:
+                            i0 = d.get("init")
+                            while i0 is not None and i0.get("k") in ("cast", "un", "paren"):
+                                i0 = i0["e"]
+                            if i0 is n:
+                                held = d["d"]
+                    if dn["k"] == "assign" and dn["rhs"] is n and dn["lhs"].get("k") == "ref":
+                        held = dn["lhs"].get("d")
+                if held is not None and any(c_["k"] in ("if", "cond", "while") and any(x["k"] == "ref" and x.get("d") == held for x in walk(c_.get("cond"))) for c_ in f.nodes()):
+                    used = True
+                if held is not None and any(r_["k"] == "return" and any(x["k"] == "ref" and x.get("d") == held for x in walk(r_.get("e"))) for r_ in f.nodes()):
+                    used = True
                 ctx.inst(used, "R01.1", "refusal-used:%s@%s" % (n.get("n"), f.name), f.loc(n),
                          "the result of %s is branched on / returned" % n.get("n"),
                          "the result of %s is discarded in %s: an undecodable script would be executed" % (n.get("n"), f.name))
